@@ -5,8 +5,39 @@
 #include <fstream>
 #include <iostream>
 #include <sstream>
+#include "hx_common.h"
 #include "libcellml/module/libcellml"
 using namespace libcellml;
+using T = AnalyserEquationAst::Type;
+
+static const char *typeName(T t)
+{
+    static const std::vector<std::pair<T, const char *>> k = {
+        {T::EQUALITY, "EQUALITY"}, {T::EQ, "EQ"}, {T::NEQ, "NEQ"}, {T::LT, "LT"}, {T::LEQ, "LEQ"}, {T::GT, "GT"}, {T::GEQ, "GEQ"}, {T::AND, "AND"}, {T::OR, "OR"},
+        {T::XOR, "XOR"}, {T::NOT, "NOT"}, {T::PLUS, "PLUS"}, {T::MINUS, "MINUS"}, {T::TIMES, "TIMES"}, {T::DIVIDE, "DIVIDE"}, {T::POWER, "POWER"}, {T::ROOT, "ROOT"},
+        {T::ABS, "ABS"}, {T::EXP, "EXP"}, {T::LN, "LN"}, {T::LOG, "LOG"}, {T::CEILING, "CEILING"}, {T::FLOOR, "FLOOR"}, {T::MIN, "MIN"}, {T::MAX, "MAX"}, {T::REM, "REM"},
+        {T::DIFF, "DIFF"}, {T::SIN, "SIN"}, {T::COS, "COS"}, {T::TAN, "TAN"}, {T::SEC, "SEC"}, {T::CSC, "CSC"}, {T::COT, "COT"}, {T::SINH, "SINH"}, {T::COSH, "COSH"},
+        {T::TANH, "TANH"}, {T::SECH, "SECH"}, {T::CSCH, "CSCH"}, {T::COTH, "COTH"}, {T::ASIN, "ASIN"}, {T::ACOS, "ACOS"}, {T::ATAN, "ATAN"}, {T::ASEC, "ASEC"},
+        {T::ACSC, "ACSC"}, {T::ACOT, "ACOT"}, {T::ASINH, "ASINH"}, {T::ACOSH, "ACOSH"}, {T::ATANH, "ATANH"}, {T::ASECH, "ASECH"}, {T::ACSCH, "ACSCH"}, {T::ACOTH, "ACOTH"},
+        {T::PIECEWISE, "PIECEWISE"}, {T::PIECE, "PIECE"}, {T::OTHERWISE, "OTHERWISE"}, {T::CI, "CI"}, {T::CN, "CN"}, {T::DEGREE, "DEGREE"}, {T::LOGBASE, "LOGBASE"},
+        {T::BVAR, "BVAR"}, {T::TRUE, "TRUE"}, {T::FALSE, "FALSE"}, {T::E, "E"}, {T::PI, "PI"}, {T::INF, "INF"}, {T::NAN, "NAN"}};
+    for (auto &kv : k) if (kv.first == t) return kv.second;
+    return "?";
+}
+
+static std::string dumpAst(const AnalyserEquationAstPtr &a)
+{
+    if (a == nullptr) return "_";
+    if (a->type() == T::CN) return "(cn " + hx::H(a->value()) + ")";
+    if (a->type() == T::CI) return "(ci " + hx::H(a->variable() ? a->variable()->name() : std::string()) + ")";
+    return std::string("(") + typeName(a->type()) + " " + dumpAst(a->leftChild()) + " " + dumpAst(a->rightChild()) + ")";
+}
+
+static std::string var(const AnalyserVariablePtr &v)
+{
+    auto x = v->variable();
+    return hx::H(x->name()) + " " + hx::H(x->units() ? x->units()->name() : std::string()) + " " + hx::H(std::dynamic_pointer_cast<Component>(x->parent())->name()) + " " + AnalyserVariable::typeAsString(v->type());
+}
 int main(int argc, char **argv)
 {
     if (argc < 3) return 2;
@@ -24,6 +55,20 @@ int main(int argc, char **argv)
               << "\nanalyser_warnings " << analyser->warningCount() << "\ntype " << AnalyserModel::typeAsString(am->type()) << "\n";
     for (size_t i = 0; i < analyser->errorCount(); ++i) std::cout << "error " << analyser->error(i)->description() << "\n";
     if (am->voi() != nullptr) std::cout << "voi " << std::dynamic_pointer_cast<Component>(am->voi()->variable()->parent())->name() << " " << am->voi()->variable()->name() << "\n";
+    if (am->voi() != nullptr) std::cout << "xvoi " << var(am->voi()) << "\n";
+    for (size_t i = 0; i < am->stateCount(); ++i) std::cout << "xstate " << i << " " << var(am->state(i)) << "\n";
+    for (size_t i = 0; i < am->variableCount(); ++i) std::cout << "xvariable " << i << " " << var(am->variable(i)) << "\n";
+    for (size_t i = 0; i < am->equationCount(); ++i) std::cout << "ast " << i << " " << dumpAst(am->equation(i)->ast()) << "\n";
+    std::cout << "need";
+    if (am->needEqFunction()) std::cout << " eq"; if (am->needNeqFunction()) std::cout << " neq"; if (am->needLtFunction()) std::cout << " lt";
+    if (am->needLeqFunction()) std::cout << " leq"; if (am->needGtFunction()) std::cout << " gt"; if (am->needGeqFunction()) std::cout << " geq";
+    if (am->needAndFunction()) std::cout << " and"; if (am->needOrFunction()) std::cout << " or"; if (am->needXorFunction()) std::cout << " xor";
+    if (am->needNotFunction()) std::cout << " not"; if (am->needMinFunction()) std::cout << " min"; if (am->needMaxFunction()) std::cout << " max";
+    if (am->needSecFunction()) std::cout << " sec"; if (am->needCscFunction()) std::cout << " csc"; if (am->needCotFunction()) std::cout << " cot";
+    if (am->needSechFunction()) std::cout << " sech"; if (am->needCschFunction()) std::cout << " csch"; if (am->needCothFunction()) std::cout << " coth";
+    if (am->needAsecFunction()) std::cout << " asec"; if (am->needAcscFunction()) std::cout << " acsc"; if (am->needAcotFunction()) std::cout << " acot";
+    if (am->needAsechFunction()) std::cout << " asech"; if (am->needAcschFunction()) std::cout << " acsch"; if (am->needAcothFunction()) std::cout << " acoth";
+    std::cout << "\nexternals " << am->hasExternalVariables() << "\n";
     for (size_t i = 0; i < am->stateCount(); ++i) { auto v = am->state(i); std::cout << "state " << i << " " << std::dynamic_pointer_cast<Component>(v->variable()->parent())->name() << " " << v->variable()->name() << "\n"; }
     for (size_t i = 0; i < am->variableCount(); ++i) { auto v = am->variable(i); std::cout << "variable " << i << " " << std::dynamic_pointer_cast<Component>(v->variable()->parent())->name() << " " << v->variable()->name() << " " << AnalyserVariable::typeAsString(v->type()) << "\n"; }
     for (size_t i = 0; i < am->equationCount(); ++i) { auto e = am->equation(i); std::cout << "equation " << i << " " << AnalyserEquation::typeAsString(e->type()) << " deps " << e->dependencyCount() << " vars " << e->variableCount() << "\n"; }
